@@ -293,4 +293,144 @@ example : storeU idU Generated.LYD_HINT_DATA [98, 58, 108, 101, 102, 116] = .ok 
     storeU idU Generated.LYD_HINT_DATA [98, 58, 108, 101, 102, 116, 32] = .ok ⟨1, .str [98, 58, 108, 101, 102, 116, 32]⟩ ∧
     storeU idU Generated.LYD_HINT_DATA [97, 58, 116, 111, 112] = .ok ⟨1, .str [97, 58, 116, 111, 112]⟩ := by decide
 
+/-! ## leafref members -/
+
+/-- `sortU` is what `lyplg_type_sort_union` computes as long as every member stores its own type as `realtype` (all member types but
+    leafref): the loop over the `types` array then meets one of the two values — and for every member list with the repaired loop
+    (`fixes/F424.diff`), so all the ordering theorems above then hold for unions with leafref members too. -/
+theorem sortUV_eq_sortU (lrefFound : Bool) (ms : List Plug) (hown : lrefFound = true ∨ ∀ m ∈ ms, m.ownRealtype = true) (a b : UVal) :
+    sortUVWith lrefFound ms a b = sortU ms a b := by
+  have hv : ∀ i : Nat, (lrefFound || (ms[i]?.map Plug.ownRealtype).getD true) = true := by
+    intro i
+    rcases hown with h | h
+    · rw [h]; rfl
+    · cases hg : ms[i]? with
+      | none => simp
+      | some m => simp [h m (List.mem_of_getElem? hg)]
+  unfold sortUVWith sortU
+  by_cases hi : (a.idx == b.idx) = true
+  · rw [if_pos hi, if_pos hi]
+  · rw [if_neg hi, if_neg hi]
+    simp only [hv a.idx, hv b.idx, if_true]
+
+/-- `union { type leafref { path "../a"; }  type leafref { path "../b"; } }` with `a` an int8 and `b` a string of length 2..3, both
+    `require-instance false` -/
+def lrefU : List Plug := [lrefPlug (MTy.base (.int .int8 [])).plug, lrefPlug (MTy.base (.str [(2, 3)])).plug]
+
+/-- Finding F424: a leafref member stores the TARGET's type as `realtype`, so `lyplg_type_sort_union` finds neither of two values that were
+    stored by two different leafref members: it returns 0 (and trips `assert(rc != 0)` in a build with assertions) although the
+    compare callback says the values differ — sort is not consistent with equality for unions with two leafref members. -/
+theorem union_sort_consistent_with_eq_leafref_fails :
+    ¬ ∀ a b : UVal, UValid lrefU a → UValid lrefU b → (sortUVWith false lrefU a b = 0 ↔ cmpEqU lrefU a b = true) := by
+  intro h
+  have ha : UValid lrefU ⟨0, .num 1⟩ := ustored_valid ⟨Generated.LYD_HINT_DATA, [49], by decide⟩
+  have hb : UValid lrefU ⟨1, .str [120, 121]⟩ := ustored_valid ⟨Generated.LYD_HINT_DATA, [120, 121], by decide⟩
+  exact absurd ((h _ _ ha hb).mp (by decide)) (by decide)
+
+/-- What holds with leafref members: a value of a leafref member and a value of any other member are still ordered (the other member is
+    found), antisymmetrically; and everything else about the union (acceptance, canonical form, compare, LYB) is untouched, because the
+    leafref plug-in IS the target's plug-in for store / compare / print (`lrefPlug`). -/
+theorem union_sort_leafref_partial (ms : List Plug) (a b : UVal) (hi : a.idx ≠ b.idx)
+    (hown : (ms[a.idx]?.map Plug.ownRealtype).getD true = true ∨ (ms[b.idx]?.map Plug.ownRealtype).getD true = true) :
+    sortUVWith false ms a b ≠ 0 ∧ sortUVWith false ms a b = -sortUVWith false ms b a := by
+  have h1 : (a.idx == b.idx) = false := by simpa using hi
+  have h2 : (b.idx == a.idx) = false := by simpa using (Ne.symm hi)
+  unfold sortUVWith
+  rw [h1, h2]
+  simp only [Bool.false_eq_true, if_false, Bool.false_or]
+  rcases Nat.lt_or_gt_of_ne hi with hlt | hgt
+  · have hn : ¬ b.idx < a.idx := by omega
+    rw [if_pos hlt, if_neg hn]
+    rcases hown with h | h
+    · rw [h]; simp
+    · rw [h]; cases (ms[a.idx]?.map Plug.ownRealtype).getD true <;> simp
+  · have hn : ¬ a.idx < b.idx := by omega
+    rw [if_neg hn, if_pos hgt]
+    rcases hown with h | h
+    · rw [h]; cases (ms[b.idx]?.map Plug.ownRealtype).getD true <;> simp
+    · rw [h]; simp
+
+example : storeU lrefU Generated.LYD_HINT_DATA [49] = .ok ⟨0, .num 1⟩ ∧ storeU lrefU Generated.LYD_HINT_DATA [120, 121] = .ok ⟨1, .str [120, 121]⟩ ∧
+    sortUVWith false lrefU ⟨0, .num 1⟩ ⟨1, .str [120, 121]⟩ = 0 ∧ sortUVWith true lrefU ⟨0, .num 1⟩ ⟨1, .str [120, 121]⟩ = 1 ∧ cmpEqU lrefU ⟨0, .num 1⟩ ⟨1, .str [120, 121]⟩ = false := by decide
+
+/-! ## the `validate` callback: members that need an instance in the data tree -/
+
+/-- `union_validate_iff` (`lyplg_type_validate_union` → `union_find_type(resolve = 1)`): after validation the value is held by member `k`
+    as `v` ⇔ member `k` stores the ORIGINAL text as `v` and `v` resolves in the tree (always, unless the member is a leafref with
+    `require-instance true`: then a target instance with the same canonical value exists), and every earlier member either refuses the text
+    or stores it as a value that does not resolve. -/
+theorem union_validate_iff (ms : List Plug) (targets : List Bytes) (hints : Nat) (s : Bytes) (k : Nat) (v : Value) :
+    validateU ms targets hints s = .ok ⟨k, v⟩ ↔
+      ∃ m, ms[k]? = some m ∧ m.store hints s = .ok v ∧ m.resolves targets v = true ∧
+        ∀ j, j < k → ∀ mj : Plug, ms[j]? = some mj →
+          (∃ e, mj.store hints s = .error e) ∨ ∃ w, mj.store hints s = .ok w ∧ mj.resolves targets w = false := by
+  unfold validateU
+  cases hf : findTypeV targets ms 0 hints s with
+  | none =>
+    simp only
+    constructor
+    · intro h; cases h
+    · rintro ⟨m, hg, h1, h2, h3⟩
+      have : findTypeV targets ms 0 hints s = some ⟨k, v⟩ :=
+        (findTypeV_some_iff targets ms 0 hints s ⟨k, v⟩).mpr ⟨k, m, by simp, hg, h1, h2, h3⟩
+      rw [hf] at this; cases this
+  | some w =>
+    simp only
+    constructor
+    · intro h
+      injection h with h
+      subst h
+      obtain ⟨k', m, hk, hg, h1, h2, h3⟩ := (findTypeV_some_iff targets ms 0 hints s _).mp hf
+      simp only [Nat.zero_add] at hk
+      subst hk
+      exact ⟨m, hg, h1, h2, h3⟩
+    · rintro ⟨m, hg, h1, h2, h3⟩
+      have : findTypeV targets ms 0 hints s = some ⟨k, v⟩ :=
+        (findTypeV_some_iff targets ms 0 hints s ⟨k, v⟩).mpr ⟨k, m, by simp, hg, h1, h2, h3⟩
+      rw [hf] at this
+      injection this with this
+      rw [this]
+
+/-- Without `require-instance` members validation changes nothing: the validated value is the stored one. -/
+theorem union_validate_eq_store (ms : List Plug) (hno : ∀ m ∈ ms, m.reqInst = false) (targets : List Bytes) (hints : Nat) (s : Bytes) :
+    validateU ms targets hints s = storeU ms hints s := by
+  unfold validateU storeU
+  rw [findTypeV_eq_findType targets ms 0 hints s hno]
+
+/-- `union { type leafref { path "../tg"; } type string { length 0..3; } }`, `tg` a leaf-list of int8 -/
+def lrefrU : List Plug := [lrefrPlug (MTy.base (.int .int8 [])).plug, (MTy.base (.str [(0, 3)])).plug]
+
+-- the member that holds a value can CHANGE at validation: "1" is stored by the leafref member (`lyd_new_term`, parsers); validated against a
+-- tree whose target leaf-list holds 1 it stays there, against a tree without such an instance it becomes the string "1"; "+1" likewise
+-- (it resolves through its canonical value "1"); with neither a target nor a fitting string the value is refused
+example : storeU lrefrU Generated.LYD_HINT_DATA [49] = .ok ⟨0, .num 1⟩ ∧
+    validateU lrefrU [[49], [55]] Generated.LYD_HINT_DATA [49] = .ok ⟨0, .num 1⟩ ∧
+    validateU lrefrU [[55]] Generated.LYD_HINT_DATA [49] = .ok ⟨1, .str [49]⟩ ∧
+    validateU lrefrU [[49]] Generated.LYD_HINT_DATA [43, 49] = .ok ⟨0, .num 1⟩ ∧
+    validateU lrefrU [] Generated.LYD_HINT_DATA [43, 49] = .ok ⟨1, .str [43, 49]⟩ ∧
+    validateU lrefrU [] Generated.LYD_HINT_DATA [45, 49, 50, 56] = .error .NoMember := by decide
+example : ∃ m, lrefrU[1]? = some m ∧ m.resolves [[55]] (.str [49]) = true :=
+  let h := (union_validate_iff lrefrU [[55]] Generated.LYD_HINT_DATA [49] 1 (.str [49])).mp (by decide)
+  ⟨h.choose, h.choose_spec.1, h.choose_spec.2.2.1⟩
+
+/-! ## why F412 has no small repair -/
+
+/-- the obvious repair of F412 — "values of different members with the same canonical string are equal": compare falls back to the
+    canonical strings and sort returns 0 for them, everything else as before -/
+def sortCanonEq (ms : List Plug) (a b : UVal) : Int :=
+  if a.idx != b.idx && canonU ms a == canonU ms b then 0 else sortU ms a b
+
+/-- … makes the order NON-transitive on stored values: in `union { string {length 1}; int16 }` the string "1" is then equal to the integer 1
+    (`"+1"`), the integer 1 is below the integer 2 (`"+2"`), but the string "1" is ABOVE the integer 2 (member order).  (libyang's own test
+    suite does not notice: it passes 119/119 with this change.)  A consistent order would have to be a function of the canonical string
+    alone, i.e. change the order of all union values; see notes/design/c03ext.md. -/
+theorem union_repair_by_canonical_equality_not_transitive :
+    ¬ ∀ (ms : List Plug), (∀ m ∈ ms, MLaws m) → ∀ a b c, UStored ms a → UStored ms b → UStored ms c →
+      sortCanonEq ms a b ≤ 0 → sortCanonEq ms b c ≤ 0 → sortCanonEq ms a c ≤ 0 := by
+  intro h
+  have := h f412U f412U_wf ⟨0, .str [49]⟩ ⟨1, .num 1⟩ ⟨1, .num 2⟩
+    ⟨Generated.LYD_HINT_DATA, [49], by decide⟩ ⟨Generated.LYD_HINT_DATA, [43, 49], by decide⟩ ⟨Generated.LYD_HINT_DATA, [43, 50], by decide⟩
+    (by decide) (by decide)
+  exact absurd this (by decide)
+
 end LyModel.Props.C03Union
